@@ -1,11 +1,12 @@
 PROPERTIES = ['C03', 'C02']
 BOUNDS = {
     'quick': 'element type Tracked (non-trivial, every special member reports to the lifetime ledger); one operation from every content state: '
-             'copy+move elements at capacity 3, move-only and copy-only elements at capacity 2; pre-size NA in 0..CAP, second vector / source block size NB in 0..CAP (enumerated); '
-             'element values, object bytes before construction, positions, counts, new sizes symbolic; histories of 2 symbolic operations (12 op codes static_vector, 6 inplace_vector) '
-             'from every pre-size at capacity 2 (copy+move)',
-    'thorough': 'capacities 0..4 for copy+move, 1..4 for move-only and copy-only elements, every (NA, NB); histories of 3 symbolic operations at capacity 2 from every pre-size (all flavours), '
-                'of 2 operations at capacity 3',
+             'copy+move elements at capacity 3 (second vector / source block size NB in {0,1,3}), move-only elements at capacity 2 (NB in {0,1}); pre-size NA in 0..CAP (enumerated); copy-only elements at capacity 2 from pre-size 1; '
+             'element values, object bytes before construction symbolic, positions / counts / new sizes symbolic (case-split); histories of 2 symbolic operations at capacity 2: '
+             'static_vector from pre-size 1, one query per first operation (12 op codes), inplace_vector from every pre-size (6 op codes), copy+move elements',
+    'thorough': 'copy+move elements at capacities 0..3 with every (NA, NB) and at capacity 4 with NB in {0,4}; move-only at capacity 3 (every NB) and 4 (NB in {0,4}); copy-only at capacity 3 (NB in {0,1,3}) and 4 (NB in {0,4}); '
+                'static_vector histories of 2 operations at capacity 2 (copy+move from every pre-size, the other flavours from pre-size 1) and of 3 operations at capacity 1 (copy+move), one query per first operation; '
+                'inplace_vector histories of 3 operations at capacity 2 (all flavours) and of 2 at capacity 3',
 }
 ASSUMPTIONS = [
     'C03: every operation is called inside its documented precondition (position in [begin,end], size()+count <= capacity, non-empty for pop, index < size()); contract checks compiled out',
@@ -62,22 +63,27 @@ def uw(blk):
 def queries(tier, prop='C03'):
     ub = prop == 'C02'
     out = []
+    only_na = {}
     nops = {0: 12, 1: 8, 2: 11}   # static_vector history op codes per flavour (driver.cpp SV_NOPS)
     if tier == 'quick':
-        grid = [(0, 3), (1, 2), (2, 2)]
+        grid = [(0, 3, (0, 1, 3)), (1, 2, (0, 1)), (2, 2, (0, 1))]   # (flavour, capacity, NB values of two-vector / range operations)
+        only_na = {2: (1,)}   # quick: copy-only elements from the middle pre-size only (every pre-size in the thorough tier)
         hist = [('q_sv_hist', 0, 2, 2, 1, f) for f in range(nops[0])] + [('q_iv_hist', 0, 2, 2, na, None) for na in (0, 1, 2)]
     else:
-        grid = [(0, c) for c in (0, 1, 2, 3, 4)] + [(f, c) for f in (1, 2) for c in (1, 2, 3, 4)]
-        hist = [('q_sv_hist', fl, 2, 2, na, f) for fl in (0, 1, 2) for na in (0, 1, 2) for f in range(nops[fl])]
-        hist += [('q_sv_hist', 0, 1, 3, na, f) for na in (0, 1) for f in range(nops[0])]
+        grid = [(0, c, tuple(range(c + 1))) for c in (0, 1, 2, 3)] + [(0, 4, (0, 4))]
+        grid += [(1, 3, (0, 1, 2, 3)), (1, 4, (0, 4)), (2, 3, (0, 1, 3)), (2, 4, (0, 4))]
+        hist = [('q_sv_hist', 0, 2, 2, na, f) for na in (0, 1, 2) for f in range(nops[0])] + [('q_sv_hist', fl, 2, 2, 1, f) for fl in (1, 2) for f in range(nops[fl])]
+        hist += [('q_sv_hist', 0, 1, 3, 1, f) for f in range(nops[0])]
         hist += [('q_iv_hist', fl, 2, 3, na, None) for fl in (0, 1, 2) for na in (0, 1, 2)] + [('q_iv_hist', 0, 3, 2, na, None) for na in (0, 1, 2, 3)]
     if ub:   # C02: the UB build of a subset (copy+move elements, one capacity)
-        grid = [(0, 2)] if tier == 'quick' else [(0, 3), (1, 2), (2, 2)]
+        grid = [(0, 2, (0, 1))] if tier == 'quick' else [(0, 3, (0, 1, 3)), (1, 2, (0, 1)), (2, 2, (0, 1))]
+        only_na = {0: (1,)} if tier == 'quick' else {}   # C02 quick: every operation once, from the middle pre-size
         hist = []
-    for (fl, cap) in grid:
+    for (fl, cap, nbs) in grid:
         objsz = cap * 8 + 16
         for na in range(cap + 1):
-            for nb in range(cap + 1):
+            if fl in only_na and na not in only_na[fl]: continue
+            for nb in nbs:
                 for e in ALL:
                     if not applicable(e, cap, na, nb): continue
                     if fl == 1 and e in NEED_COPY: continue
@@ -90,5 +96,6 @@ def queries(tier, prop='C03'):
         if first is not None: cfg['FIRST'] = first
         out.append(dict(entry=e, cfg=cfg, unwind=cap + 3, unwindset=uw(cap * 8 + 18), object_bits=14,
                         budget=300 if tier == 'quick' else 2400, ub=ub, nofunc=ub))
-    for q_ in out: q_['lazy_trace'] = True   # verdict first, counterexample trace only when an obligation fails (engine/runner.py)
+    for q_ in out:
+        q_['lazy_trace'] = True   # verdict first, counterexample trace only when an obligation fails (engine/runner.py)
     return out
